@@ -428,10 +428,25 @@ func (g *c12Gen) observe(list bool, name string) []zr.Stmt {
 	g.n++
 	if list {
 		iv, ev := fmt.Sprintf("序%d", g.n), fmt.Sprintf("项%d", g.n)
-		return []zr.Stmt{
+		out := []zr.Stmt{
 			zr.Show(zr.S("列"), zr.N(name), zr.Member{Recv: zr.N(name), Prop: "长度"}),
 			zr.Iter{Names: []string{iv, ev}, Over: zr.N(name), Body: []zr.Stmt{zr.Show(zr.S("遍"), zr.N(iv), zr.N(ev))}},
 		}
+		if g.r.Intn(2) == 0 {
+			// iteration with passes cut short by 继续循环 / ended by 结束循环: in pass k the index is k
+			// and the element is 集#k, whatever happened in earlier passes
+			g.n++
+			iv2, ev2 := fmt.Sprintf("序%d", g.n), fmt.Sprintf("项%d", g.n)
+			m := 2 + g.r.Intn(2)
+			skip := zr.If{Cond: zr.Bin{Op: "==", L: zr.Bin{Op: "%", L: zr.N(iv2), R: intLit(m)}, R: intLit(g.r.Intn(m))}, Then: []zr.Stmt{zr.Continue{}}}
+			bodyStmts := []zr.Stmt{skip, zr.Show(zr.S("遍续"), zr.N(iv2), zr.N(ev2), zr.Index{Recv: zr.N(name), Idx: zr.N(iv2)})}
+			if g.r.Intn(3) == 0 {
+				bodyStmts = append(bodyStmts, zr.If{Cond: zr.Bin{Op: ">=", L: zr.N(iv2), R: intLit(3 + g.r.Intn(3))}, Then: []zr.Stmt{zr.Break{}}})
+			}
+			out = append(out, zr.Iter{Names: []string{iv2, ev2}, Over: zr.N(name), Body: bodyStmts})
+			g.feat["iterate-continue"] = true
+		}
+		return out
 	}
 	kv, vv := fmt.Sprintf("键名%d", g.n), fmt.Sprintf("值%d", g.n)
 	return []zr.Stmt{
